@@ -483,6 +483,21 @@ func (g *Gen) PreambleFor(stripQ bool, body string) string {
 		if body != "" && strings.Contains(a, "(forall ") && !g.axiomRelevant(a, body) {
 			continue
 		}
+		if body != "" && !strings.Contains(a, "(forall ") && !strings.Contains(a, "(exists ") {
+			// a ground fact matters only if the query mentions every uninterpreted symbol it is about
+			ids := map[string]bool{}
+			identSet(a, ids)
+			rel := true
+			for id := range ids {
+				if g.funSeen[id] && !strings.Contains(body, id) {
+					rel = false
+					break
+				}
+			}
+			if !rel {
+				continue
+			}
+		}
 		axs = append(axs, ax{g.axiomNames[i], a})
 	}
 	sort.Slice(axs, func(i, j int) bool { return axs[i].name < axs[j].name })
